@@ -37,10 +37,14 @@ type impent struct {
 	//    No release message should be sent.
 	//
 	// The generation counter solves this by amending steps 3 and 4.  When
-	// a new importClient is created, generation is incremented.
+	// a new importClient is created, it gets a new generation.
 	// When importClient.Close is called, then it must check that the
 	// importClient's generation matches the entry's generation before
 	// removing the entry from the table and sending a release message.
+	//
+	// Generations are unique per Conn, not per entry: an entry that was
+	// removed and created again for the same ID must not be mistaken for
+	// the old one by an importClient whose Close is still pending.
 	generation uint64
 }
 
@@ -54,7 +58,8 @@ func (c *Conn) addImport(id importID) *capnp.Client {
 		ent.wireRefs++
 		client, ok := ent.wc.AddRef()
 		if !ok {
-			ent.generation++
+			c.importGen++
+			ent.generation = c.importGen
 			client = capnp.NewClient(&importClient{
 				c:          c,
 				id:         id,
@@ -64,13 +69,16 @@ func (c *Conn) addImport(id importID) *capnp.Client {
 		}
 		return client
 	}
+	c.importGen++
 	client := capnp.NewClient(&importClient{
-		c:  c,
-		id: id,
+		c:          c,
+		id:         id,
+		generation: c.importGen,
 	})
 	c.imports[id] = &impent{
-		wc:       client.WeakRef(),
-		wireRefs: 1,
+		wc:         client.WeakRef(),
+		wireRefs:   1,
+		generation: c.importGen,
 	}
 	return client
 }
